@@ -635,12 +635,13 @@ func decodeKeyNotFoundStream(s *Stream, start int64) (*structFieldSet, string, e
 			return nil, key, nil
 		case '\\':
 			cursor++
-			if char(p, cursor) == nul {
+			for char(p, cursor) == nul {
 				s.cursor = cursor
 				if !s.read() {
 					return nil, "", errors.ErrUnexpectedEndOfJSON("string", s.totalOffset())
 				}
-				buf, cursor, p = s.statForRetry()
+				// stay on the escaped character: the loop's increment skips it
+				buf, cursor, p = s.stat()
 			}
 		case nul:
 			s.cursor = cursor
